@@ -159,8 +159,8 @@ def collapse(t):
     return (t[0], kids)
 
 
-def check(ctx, form, sig, sample=False):
-    o = drive.convert_form(form)
+def check(ctx, form, sig, sample=False, fmt="dict", sheets=None):
+    o = drive.convert_sheets(sheets if sheets is not None else form.to_sheets(), fmt=fmt, args=form.args)
     if not o.ok:
         ctx.ctr("rejected")
         if not o.exc_is_pyxform:
@@ -224,7 +224,22 @@ def run_shard(ctx):
             continue
         rng = ctx.rng("case", i)
         form = make_form(rng, i)
-        check(ctx, form, common.feature_sig(form, extra=(i % 8,)), sample=(i < 2))
+        fmt, sheets, extra = "dict", None, ()
+        if i % 7 == 3:
+            # spreadsheet layout noise that must not cost a single row or column: a long run (<= 60) of blank rows between two top-level parts of the
+            # form, empty spacer columns inside the header row
+            fmt = rng.choice(["xlsx", "xls"])
+            k = rng.choice([1, 20, 21, 30, 45, 60])
+            at = rng.randint(1, len(form.survey)) if form.survey else 0
+            form.survey[at:at] = [Row("raw", None) for _ in range(k)]
+            sheets = form.to_sheets()
+            h, rows = sheets["survey"]
+            nsp = rng.choice([0, 1, 2, 3])
+            pos = rng.randint(2, len(h))
+            sheets["survey"] = (h[:pos] + [None] * nsp + h[pos:], [r[:pos] + [None] * nsp + r[pos:] for r in rows])
+            extra = (fmt, k > 20, nsp)
+            ctx.ctr("spreadsheet_layout_cases")
+        check(ctx, form, common.feature_sig(form, extra=(i % 8,) + extra), sample=(i < 2), fmt=fmt, sheets=sheets)
 
 
 def replay(w):
